@@ -365,37 +365,19 @@ INT_TY = {'usize': (64, False), 'isize': (64, True), 'u8': (8, False), 'u16': (1
           'u64': (64, False), 'i8': (8, True), 'i16': (16, True), 'i32': (32, True), 'i64': (64, True)}
 
 
-@model('usize::checked_sub', 'u64::checked_sub', 'u32::checked_sub')
-def _checked_sub(M, a, info):
-    x, y = a
-    w, s = _int_ty(info)
-    if not is_sym(x) and not is_sym(y):
-        return SOME(x - y) if x >= y else NONE()
-    zx = bv(x, w); zy = bv(y, w)
-    if M.I.branch(z3.UGE(zx, zy)): return SOME(zx - zy)
-    return NONE()
+def _checked(opname):
+    def fn(M, a, info):
+        ity = _int_ty(info)
+        r = M.I.binop(opname, _opt(a[0]), _opt(a[1]), ity)
+        if M.I.branch(r.fields[1]): return NONE()
+        return SOME(r.fields[0])
+    return fn
 
 
-@model('usize::checked_add', 'u64::checked_add')
-def _checked_add(M, a, info):
-    x, y = a
-    w, s = _int_ty(info)
-    if not is_sym(x) and not is_sym(y):
-        return SOME(x + y) if x + y <= MASK[w] else NONE()
-    zx = bv(x, w); zy = bv(y, w)
-    if M.I.branch(z3.BVAddNoOverflow(zx, zy, False)): return SOME(zx + zy)
-    return NONE()
-
-
-@model('usize::checked_mul', 'u64::checked_mul')
-def _checked_mul(M, a, info):
-    x, y = a
-    w, s = _int_ty(info)
-    if not is_sym(x) and not is_sym(y):
-        return SOME(x * y) if x * y <= MASK[w] else NONE()
-    zx = bv(x, w); zy = bv(y, w)
-    if M.I.branch(z3.BVMulNoOverflow(zx, zy, False)): return SOME(zx * zy)
-    return NONE()
+for _t in ('usize', 'isize', 'u8', 'u16', 'u32', 'u64', 'i8', 'i16', 'i32', 'i64'):
+    TABLE[_t + '::checked_add'] = _checked('AddWithOverflow')
+    TABLE[_t + '::checked_sub'] = _checked('SubWithOverflow')
+    TABLE[_t + '::checked_mul'] = _checked('MulWithOverflow')
 
 
 @model('usize::saturating_sub')
